@@ -612,7 +612,13 @@ def run_meth(case):
             for i in range(max(lens)):
                 row = [items(a)[i % len(items(a))] if is_list(a) else a for a in cols]
                 vals = [ctx.value(a) for a in row]
-                rows.append({'leaf': getattr(vals[0], case['name'])(*vals[1:])})
+                recv = vals[0]
+                if isinstance(recv, (int, float)):
+                    # a plain number channel answers through its graph-parameter wrapper (UGenScalar)
+                    recv = _state['gpp'].ugen_param(recv)
+                    if not hasattr(recv, case['name']):
+                        raise LawError       # numbers do not answer this method: nothing to require
+                rows.append({'leaf': getattr(recv, case['name'])(*vals[1:])})
             out['ret'] = terms_of({'chan': rows}, ctx)
         except LawError:
             out['exc'] = 'LawError'
